@@ -123,6 +123,8 @@ func H_Cache() {
 			if ok && mv != nil {
 				vp.Assert("C06.hit-value-is-nearest-ancestor-write", mv.X == ov)
 				vp.Observe("hit", b, k, via, mv.X)
+				// callers own what they get: mutating it must never influence later answers
+				mv.X = mv.X + 1
 			}
 			vp.Cover("C06.hit")
 		} else {
